@@ -1006,6 +1006,25 @@ def canon(bt, res):
     return s
 
 
+def release(proxy):
+    """close what the proxy keeps open (harness hygiene only)"""
+    mf = getattr(proxy, 'minc_file', None)
+    f = getattr(mf, '_mincfile', None)
+    try:
+        if f is not None and hasattr(f, 'close'):
+            with warnings.catch_warnings():
+                warnings.simplefilter('ignore')
+                f.close()
+    except Exception:
+        pass
+    op = getattr(proxy, '_opener', None)
+    try:
+        if op is not None:
+            op.close_if_mine()
+    except Exception:
+        pass
+
+
 def impl(case):
     d = case.data
     if d.get('op') == 'frz':
@@ -1026,7 +1045,6 @@ def impl(case):
                 except ValueError:
                     case.extra['reshape_err'] = True
                     return 'ERR'
-            case.extra['proxy'] = proxy
             if d.get('pre') is not None:
                 try:
                     proxy[idx_of(d, 'pre')]
@@ -1040,10 +1058,12 @@ def impl(case):
             except (IndexError, ValueError) as e:
                 case.extra['err'] = e
                 return 'ERR'
+            # everything the oracle needs is read inside the same configuration; arrays are COPIED so that no
+            # memory map / open file outlives this call (thousands of cases per run)
+            res = np.array(res)
             case.extra['res'] = res
-            # everything the oracle needs is read inside the same configuration
             try:
-                case.extra['full'] = np.asarray(proxy)
+                case.extra['full'] = np.array(np.asarray(proxy))
             except Exception as e:
                 case.extra['full_err'] = e
             if hasattr(proxy, 'get_unscaled') and d.get('op') != 'reshape':
@@ -1051,6 +1071,7 @@ def impl(case):
                     case.extra['unscaled_shape'] = proxy.get_unscaled().shape
                 except Exception as e:
                     case.extra['full_err'] = e
+            release(proxy)
     return canon(bt, res)
 
 
